@@ -65,6 +65,14 @@ def main(argv: list[str] | None = None) -> int:
     from vf import meta as _meta
 
     mod = _meta.get(prop)
+    if not args.replay:  # replay files of earlier runs of this check are stale
+        import glob
+
+        for old_replay in glob.glob(os.path.join(HERE, "replays", f"{prop}-*.json")):
+            try:
+                os.unlink(old_replay)
+            except OSError:
+                pass
     t0 = time.monotonic()
     env = shard_env(src)
     tmpdir = tempfile.mkdtemp(prefix=f"vf-{prop}-")
